@@ -305,6 +305,12 @@ pub fn run(cfg: &Cfg, rep: &mut Rep) {
             let big = (r.range_i64(-(315_576_000_000 >> k), 315_576_000_000 >> k)) << k;
             check_f64(rep, e_c, s, big);
             check_f64(rep, e_c, s, *r.pick(&[9_300_000_000i64, -9_300_000_000, 9_223_372_800, -9_223_372_800, 10_000_000_000, 100_000_000_000, -31_557_600_000]));
+            // whole seconds over the whole representable range (to 3.2 million years): m x 2^k with m below 2^32, so that the
+            // nanosecond count is still an exact double; and the decimal round numbers people type
+            let k2 = r.range_i64(8, 20) as u32;
+            let m = r.range_i64(-(1 << 26), 1 << 26);
+            check_f64(rep, e_c.clamp(-1000 * NPC, 1000 * NPC), s, m << k2);
+            check_f64(rep, e_c.clamp(-1000 * NPC, 1000 * NPC), s, *r.pick(&[700_000_000_000i64, -700_000_000_000, 1i64 << 43, -(1i64 << 43), 1i64 << 46, 1_000_000_000_000, 10_000_000_000_000, -50_000_000_000_000, 3i64 << 44, 5i64 << 43, 90_000_000_000_000]));
         }
         // cross-scale difference
         let sj = r.below(9) as usize;
